@@ -225,6 +225,19 @@ def run(tier, seed, replay=None):
         wv = parse_sexpr(w)
         if wv and wv[0] == "canonwf":
             wf_of[i] = (wv[1] == "1", wv[2] == "1")
+            if len(wv) >= 8:
+                # conclusions of C13_canon_is_renaming / C13_canon_all_rewritten_wf / C13_canonWF_alphaOK (hypothesis canonWF) and of
+                # C13_canon_is_renaming_reserved (hypothesis renamingShapeOK_cr), evaluated by the executable model on this block
+                is_ren, no_old, aok_self, shape, is_ren_res = (x == "1" for x in wv[3:8])
+                if wv[1] == "1":
+                    for nm, ok in (("C13_canon_is_renaming", is_ren), ("C13_canon_all_rewritten_wf", no_old), ("C13_canonWF_alphaOK", aok_self)):
+                        rep.count("theorem-instances-checked:" + nm)
+                        if not ok:
+                            rep.broken.append("instance of " + nm + " false in the executable model for " + texts[i][0][:300])
+                if shape:
+                    rep.count("theorem-instances-checked:C13_canon_is_renaming_reserved")
+                    if not is_ren_res:
+                        rep.broken.append("instance of C13_canon_is_renaming_reserved false in the executable model for " + texts[i][0][:300])
     # instances of C06_renamed_permuted_same_header / C13_alpha_invariance: every renamed / re-declared presentation against its base
     base_of = {}
     for i in idx:
